@@ -55,6 +55,34 @@ REGISTRY = {
                 monitors=[M.mon_c14]),
 }
 
+EV_FILES = ["Model/Tracker.v", "Model/RecoveryFns.v", "Spec/StatementsEv.v"]
+REGISTRY.update({
+    "C07": dict(**_p(EV_FILES + ["Proofs/C07Proofs.v"], ["Props/C07.v"], ["Arb"]),
+                theorems=["C07_formula_holds", "C07_range_holds", "C07_support_holds", "C07_reject_holds", "C07_perm_holds"],
+                corr=["delta.exceeded", "delta.capital", "delta.arbitrary", "delta.total", "cap"],
+                monitors=[M.mon_c07]),
+    "C08": dict(**_p(EV_FILES + ["Proofs/C08Proofs.v"], ["Props/C08.v"], ["Layout", "Ledger"]),
+                theorems=["C08_ledger_cell_holds", "C08_ledger_monotone_holds", "C08_receive_holds", "C08_presented_holds",
+                          "C08_creation_holds", "C08_creation_total_holds", "C08_creation_rejects_holds"],
+                corr=["reb.blocks", "reb.ledger_i", "reb.ledger_h", "reb.dmg", "reb.hdmg", "reb.status", "deliver.rebuild_prod"],
+                monitors=[M.mon_c08]),
+    "C09": dict(**_p(EV_FILES + ["Proofs/C08Proofs.v", "Proofs/C09Proofs.v"], ["Props/C09.v"], ["Ledger", "Arb", "Consts"]),
+                theorems=["C09_recover_holds", "C09_rounding_holds", "C09_linear_shape_holds", "C09_convexe_shape_holds"],
+                corr=["rec.status", "rec.dmg", "rec.hdmg", "rec.arb", "sched.status", "delta.total"],
+                monitors=[M.mon_c09]),
+    "C10": dict(**_p(EV_FILES + ["Proofs/C10Proofs.v"], ["Props/C10.v"], ["Phases", "Arb"]),
+                theorems=["C10_activate_holds", "C10_start_holds", "C10_ledgers_monotone_holds", "C10_step_monotone_holds",
+                          "C10_prefix_holds"],
+                corr=["sched.status", "sched.rid", "sched.count", "delta.total", "rec.status", "reb.status"],
+                monitors=[M.mon_c10]),
+    "C11": dict(**_p(EV_FILES + ["Proofs/C07Proofs.v", "Proofs/C11Proofs.v"], ["Props/C11.v"], ["Layout", "Defaults"]),
+                theorems=["C11_ids_activate_holds", "C11_ids_start_holds", "C11_ids_ledgers_holds", "C11_ids_step_holds",
+                          "C11_no_internal_error_holds", "C07_perm_holds"],
+                corr=["sched.status", "sched.rid", "sched.count", "reb.status", "reb.rid", "reb.count", "reb.blocks",
+                      "delta.capital", "delta.arbitrary", "events.error", "rec.oracle"],
+                monitors=[M.mon_run_ok("C11")]),
+})
+
 
 def branch_vector(init, st):
     """What regime a recorded step was in (for counting distinct non-trivial cases)."""
